@@ -1255,6 +1255,11 @@ func (r *replicateChannelHandler) getTSManagerChannelKey(channelName string) str
 }
 
 func (r *replicateChannelHandler) innerHandleReplicateMsg(forward bool, msg *api.ReplicateMsg) {
+	// several handlers can share one target channel, the packs must reach the target
+	// msg chan in the order in which their time ticks were generated
+	emitKey := "emit/" + r.getTSManagerChannelKey(r.targetPChannel)
+	GetTSManager().LockTargetChannel(emitKey)
+	defer GetTSManager().UnLockTargetChannel(emitKey)
 	msgPack := msg.MsgPack
 	p := r.handlePack(forward, msgPack, msg.TaskID)
 	if p == nil || p == api.EmptyMsgPack {
